@@ -178,6 +178,7 @@ type Exec struct {
 	maxSteps      int
 	assertHit     map[int]bool
 	ghostUpdHit   map[int]bool
+	sortOrd       int // ordinal of sort.Slice calls (obligation names)
 	skipHit       map[string]bool
 	loopHit       map[int]bool
 	cloHit        map[int]bool
